@@ -1,4 +1,5 @@
 import JunoModel.C10.Proofs
+import JunoModel.C10.ProofsR5
 /-!
 C10 — Merkle proofs verify against the root and cannot be forged by tampering.
 Property theorems only (lemmas are in `Proofs.lean`; witnesses of defects that are fixed in /repo are
@@ -305,5 +306,210 @@ example : verifyMulti freeAlg RCfg.strict (exTree.hash freeAlg) [true, false, fa
       Trie.prove freeAlg false false (some exTree) [true, true, false]) = .ok true := by decide
 example : verifySingle freeAlg RCfg.strict (exTree.hash freeAlg) [true, true, false] (.felt 8)
     (Trie.prove freeAlg false false (some exTree) [true, true, false]) = .ok true := by decide
+
+/-! ## `trie2.VerifyRangeProof` as a whole: felt keys, preamble, dispatch (`verifyRange`, round 5)
+
+`verifyRange` is the exported function: `verifyProofData` on the FELTS, the choice between the no-proof /
+empty / single-element / general case, and `SetFelt(251, ·)` on every key.  `ck` is the variant of the code:
+`true` = a first key or a listed key of `2^height` or more is refused (proposed-fixes/C10-rangeproof-keys-
+above-2-251.diff), `false` = /repo as it is.  The harness probes which one it is looking at. -/
+
+/-- THE statement about `VerifyRangeProof(root, first, keys, values, proof)` with a proof, for the variant that
+checks its keys: accepted, for ANY node set, ⇒ `first` and every listed key are below `2^n`, every felt key `k`
+with `first ≤ k ≤ last` (every `k ≥ first` when the list is empty) holds in the trie exactly what the list gives
+it (zero = absent: nothing left out, nothing wrong, nothing invented), and `more` is true iff the trie has a
+key greater than the last listed one (false for the empty list). -/
+theorem range_verify_sound (A : HashAlg H) (hI : Ideal A) (rc : RCfg) (hch : rc.checkHash = true)
+    (hev : rc.earlyValue = false) (hlh : rc.leafHash = true) (hul : rc.unsetLeaf = true)
+    (t : Tree H) (n : Nat) (hwf : WF t n) (hnz : t.NZ A) (hn : 0 < n) (first : Nat) (kvs : List (Nat × H))
+    (P : PSet H) (more : Bool)
+    (h : verifyRange A rc true n (t.hash A) first kvs (some P) = .ok more) :
+    (first < 2 ^ n ∧ ∀ kv ∈ kvs, kv.1 < 2 ^ n) ∧
+    (∀ k, k < 2 ^ n → first ≤ k → (∀ l, kvs.getLast? = some l → k ≤ l.1) →
+      t.get A (pathOfNat n k) = (lastValF kvs k).getD A.zero) ∧
+    (more = true ↔ ∃ l, kvs.getLast? = some l ∧ GtIn t n (pathOfNat n l.1)) :=
+  verifyRange_sound hI rc hch hev hlh hul true t n hwf hnz hn first kvs P more (Or.inl rfl) h
+
+/-- The same for /repo AS IT IS (`ck = false`), PARTIAL: only under the side condition that `first` and the
+listed keys are below `2^n`.  What is missing: the code does not check it — see `range_felt_key_alias`. -/
+theorem range_verify_sound_partial (A : HashAlg H) (hI : Ideal A) (rc : RCfg) (hch : rc.checkHash = true)
+    (hev : rc.earlyValue = false) (hlh : rc.leafHash = true) (hul : rc.unsetLeaf = true)
+    (t : Tree H) (n : Nat) (hwf : WF t n) (hnz : t.NZ A) (hn : 0 < n) (first : Nat) (kvs : List (Nat × H))
+    (P : PSet H) (more : Bool) (hb : first < 2 ^ n ∧ ∀ kv ∈ kvs, kv.1 < 2 ^ n)
+    (h : verifyRange A rc false n (t.hash A) first kvs (some P) = .ok more) :
+    (∀ k, k < 2 ^ n → first ≤ k → (∀ l, kvs.getLast? = some l → k ≤ l.1) →
+      t.get A (pathOfNat n k) = (lastValF kvs k).getD A.zero) ∧
+    (more = true ↔ ∃ l, kvs.getLast? = some l ∧ GtIn t n (pathOfNat n l.1)) :=
+  (verifyRange_sound hI rc hch hev hlh hul false t n hwf hnz hn first kvs P more (Or.inr hb) h).2
+
+/-- The defect (known findings `trie2:range:*key-plus-2^251*`, `…keys-wrap-2^251…`): without the check the
+single-element claim about the felt `2^n + k` is verified exactly like the claim about `k`; concretely, in the
+example trie the honest proof of 110 ↦ 8 is accepted for the felt `2^3 + 6`, a key no trie of height 3 holds,
+and the variant with the check refuses it.  (On the real code the general case also accepts a range with a
+gap, `first = 5, keys = [5, 3 + 2^251]` over {3, 5, 9, 12}, and panics for `first = k, keys = [k + 2^251]`; there
+the paths are not increasing, which is outside the model's `fill`.) -/
+theorem range_felt_key_alias (A : HashAlg H) (rc : RCfg) (n : Nat) (root : H) (k : Nat) (v : H) (P : PSet H) :
+    verifyRange A rc false n root (2 ^ n + k) [(2 ^ n + k, v)] (some P) =
+      verifyRange A rc false n root k [(k, v)] (some P) ∧
+    verifyRange freeAlg RCfg.strict false 3 (exTree.hash freeAlg) (2 ^ 3 + 6) [(2 ^ 3 + 6, .felt 8)]
+      (some (Trie.prove freeAlg false false (some exTree) [true, true, false])) = .ok true ∧
+    verifyRange freeAlg RCfg.strict true 3 (exTree.hash freeAlg) (2 ^ 3 + 6) [(2 ^ 3 + 6, .felt 8)]
+      (some (Trie.prove freeAlg false false (some exTree) [true, true, false])) = .err :=
+  ⟨verifyRange_alias rc n root k v P, by decide, by decide⟩
+
+/-- The no-proof case of `VerifyRangeProof` (`proof == nil`), variant with the key check: accepted ⇒ the keys
+are below `2^n`, `more = false` and the trie holds exactly the list. -/
+theorem range_verify_all_sound (A : HashAlg H) (hI : Ideal A) (rc : RCfg) (t : Tree H) (n : Nat)
+    (hwf : WF t n) (first : Nat) (kvs : List (Nat × H)) (more : Bool)
+    (h : verifyRange A rc true n (t.hash A) first kvs none = .ok more) :
+    (∀ kv ∈ kvs, kv.1 < 2 ^ n) ∧ more = false ∧
+    ∀ k, k < 2 ^ n → t.get A (pathOfNat n k) = (lastValF kvs k).getD A.zero :=
+  verifyRange_all_sound hI rc true t n hwf first kvs more (Or.inl rfl) h
+
+/-! Completeness of `VerifyRangeProof` (either variant `ck`) for three of its four cases.  The general case
+(two or more keys, or `first` < the only key) is NOT proved complete — it needs canonicity of `build` through
+`fill`; it is covered by the exhaustive honest claims of the harness, which must all be accepted. -/
+
+/-- the no-proof case: the complete sorted list of a trie (felts non-decreasing, non-zero values, below
+`2^n`) is accepted against the root of the trie of that list (`build`, which the real tries are tied to) -/
+theorem range_verify_all_complete (A : HashAlg H) (rc : RCfg) (ck : Bool) (n : Nat) (first : Nat)
+    (kvs : List (Nat × H)) (hf : first < 2 ^ n) (hb : ∀ kv ∈ kvs, kv.1 < 2 ^ n)
+    (hv : ∀ kv ∈ kvs, kv.2 ≠ A.zero) (hm : feltKeysMonotonic kvs = true) :
+    verifyRange A rc ck n (Trie.hash A (build n (kvs.map (fun kv : Nat × H => (pathOfNat n kv.1, kv.2)))))
+      first kvs none = RRes.ok false :=
+  verifyRange_all_complete rc ck n first kvs hf hb hv hm
+
+/-- the empty range: when no key of the trie is at or right of `first`, the claim with the honest proof of
+`first` (either prover, any superset that returns the honest nodes) is accepted, with `more = false` -/
+theorem range_verify_empty_complete (A : HashAlg H) (hI : Ideal A) (rc : RCfg) (hch : rc.checkHash = true)
+    (hev : rc.earlyValue = false) (hlh : rc.leafHash = true) (ck : Bool) (t : Tree H) (n : Nat)
+    (hwf : WF t n) (hnz : t.NZ A) (hn : 0 < n) (h256 : n < 256) (first : Nat) (hf : first < 2 ^ n)
+    (hnone : ∀ k, k < 2 ^ n → first ≤ k → t.has (pathOfNat n k) = false)
+    (legacy cached : Bool) (P : PSet H)
+    (hlook : ∀ nd ∈ t.proveNodes A legacy cached (pathOfNat n first), P.get (nd.hash A) = some nd) :
+    verifyRange A rc ck n (t.hash A) first [] (some P) = RRes.ok false :=
+  verifyRange_empty_complete hI rc hch hev hlh ck t n hwf hnz hn h256 first hf hnone legacy cached P hlook
+
+/-- the single element: a key of the trie with its value and its honest proof is accepted -/
+theorem range_verify_single_complete (A : HashAlg H) (rc : RCfg) (ck : Bool) (t : Tree H) (n : Nat)
+    (hwf : WF t n) (hn : 0 < n) (h256 : n < 256) (k : Nat) (hk : k < 2 ^ n)
+    (hhas : t.has (pathOfNat n k) = true) (hv : t.get A (pathOfNat n k) ≠ A.zero)
+    (legacy cached : Bool) (P : PSet H)
+    (hlook : ∀ nd ∈ t.proveNodes A legacy cached (pathOfNat n k), P.get (nd.hash A) = some nd) :
+    ∃ more, verifyRange A rc ck n (t.hash A) k [(k, t.get A (pathOfNat n k))] (some P) = RRes.ok more :=
+  verifyRange_single_complete rc ck t n hwf hn h256 k hk hhas hv legacy cached P hlook
+
+-- non-vacuity of the empty-range completeness: the one-key trie {001 ↦ 7} and first = 2 (nothing at or right of 010)
+example : verifyRange freeAlg RCfg.strict true 3
+    ((Tree.edge [false, false, true] (.leaf (.felt 7)) : Tree HTerm).hash freeAlg) 2 []
+    (some (Trie.prove freeAlg false false (some (.edge [false, false, true] (.leaf (.felt 7)))) [false, true, false]))
+    = .ok false := by decide
+
+-- non-vacuity: the whole function accepts an honest range with an absent first key (felts 4 < 5 < 6)
+example : verifyRange freeAlg RCfg.strict true 3 (exTree.hash freeAlg) 4 [(5, .felt 5), (6, .felt 8)]
+    (some (Trie.prove freeAlg false false (some exTree) [true, false, false] ++
+      Trie.prove freeAlg false false (some exTree) [true, true, false])) = .ok true := by decide
+example : verifyRange freeAlg RCfg.strict true 3 (exTree.hash freeAlg) 0
+    [(1, .felt 7), (5, .felt 5), (6, .felt 8), (7, .felt 9)] none = .ok false := by decide
+
+/-! ## `starknet_getStorageProof`: the response the node assembles verifies (round 5)
+
+`storageProof` transcribes `Handler.StorageProof` of rpc/v8, v9, v10 after the head state is open:
+`isBlockSupported`, `utils.Set`, `processStorageKeys`, the loops `for key { trie.Prove(key, set) }` into ONE
+`OrderedSet` per mapping (`OrderedSet.Put`), `buildContractLeavesData`, the conversion to wire nodes and the two
+roots; the harness compares the complete response (every node of every mapping in order, leaf data, roots,
+refusals) with it.  `clientSet` is what a client reads from a `node_hash → node` array. -/
+
+/-- The clause "storage proofs returned over RPC verify, with an independent verifier, against the root":
+whatever the state and the request (repeated classes / contracts / keys, a contract listed several times, absent
+keys, empty tries), a served response is for the head block, carries the roots of the state's two tries, and
+* every requested class key verifies against `classes_tree_root` to what the classes trie holds (zero = absent),
+* every requested contract verifies against `contracts_tree_root` to what the contracts trie holds,
+* `contract_leaves_data` is aligned with the de-duplicated contracts: class hash, nonce and the hash of the
+  contract's storage trie, `none` exactly for a contract the state does not have,
+* `contracts_storage_proofs[i]` belongs to the i-th distinct contract of `contracts_storage_keys` and every key
+  requested for it verifies against that contract's storage root to the slot's value,
+with `trie.VerifyProof` of /repo (any variant with `zeroRoot`) run on the node mapping as the client decodes it.
+Together with `rpc_storage_proof_sound` (what the client may conclude) and the tie of the commitment formula. -/
+theorem rpc_response_verifies (Ac Ap : HashAlg H) (hIc : Ideal Ac) (hIp : Ideal Ap) (cfg : Cfg)
+    (hz : cfg.zeroRoot = true) (legacy : Bool) (n : Nat) (hn : 0 < n) (h256 : n < 256) (st : RState H)
+    (hwc : Trie.WF st.classes n) (hnc : Trie.NZ Ac st.classes)
+    (hwt : Trie.WF st.contracts n) (hnt : Trie.NZ Ap st.contracts)
+    (hws : ∀ a, Trie.WF (st.storageOf a) n) (hns : ∀ a, Trie.NZ Ap (st.storageOf a))
+    (blk : BlkRes) (classes contracts : List Nat) (sks : List SK) (resp : Resp H)
+    (h : storageProof Ac Ap legacy n st blk classes contracts sks = .ok resp) :
+    blk = .ok ∧ resp.classesRoot = st.classes.hash Ac ∧ resp.contractsRoot = st.contracts.hash Ap ∧
+    (∀ c ∈ classes, verifyL Ac cfg resp.classesRoot (pathOfNat n c) (clientSet resp.classesProof) =
+      Res.ok (st.classes.get Ac (pathOfNat n c))) ∧
+    (∀ a ∈ contracts, verifyL Ap cfg resp.contractsRoot (pathOfNat n a) (clientSet resp.contractsProof) =
+      Res.ok (st.contracts.get Ap (pathOfNat n a))) ∧
+    resp.leaves = (setOf contracts).map
+      (fun a => (st.info a).map (fun i => ⟨i.nonce, i.cls, (st.storageOf a).hash Ap⟩)) ∧
+    ∃ usk, processStorageKeys sks = .ok usk ∧ resp.storageProofs.length = usk.length ∧
+      ∀ (i : Nat) (a : Nat) (ks : List Nat), usk[i]? = some (a, ks) → ∃ w, resp.storageProofs[i]? = some w ∧
+        ∀ k ∈ ks, verifyL Ap cfg ((st.storageOf a).hash Ap) (pathOfNat n k) (clientSet w) =
+          Res.ok ((st.storageOf a).get Ap (pathOfNat n k)) :=
+  storageProof_verifies Ac Ap hIc hIp cfg hz legacy n hn h256 st hwc hnc hwt hnt hws hns blk classes contracts sks
+    resp h
+
+/-- `GetRangeProof(left, right)` of either trie (`rangeProve`: `Prove(left)`, then `Prove(right)` into the same
+ordered set): both boundary keys verify against the root with that one set, to their value or to absence — the
+two edge proofs a range claim rests on are membership / non-membership proofs of the trie. -/
+theorem range_proof_nodes_verify (A : HashAlg H) (hI : Ideal A) (cfg : Cfg) (hz : cfg.zeroRoot = true)
+    (t : Trie H) (n : Nat) (hwf : Trie.WF t n) (hnz : Trie.NZ A t) (hn : 0 < n) (h256 : n < 256)
+    (legacy : Bool) (left right : Nat) :
+    verifyL A cfg (t.hash A) (pathOfNat n left) (rangeProve A legacy n t left right) =
+      Res.ok (t.get A (pathOfNat n left)) ∧
+    verifyL A cfg (t.hash A) (pathOfNat n right) (rangeProve A legacy n t left right) =
+      Res.ok (t.get A (pathOfNat n right)) := by
+  unfold rangeProve
+  split
+  · rename_i h
+    subst h
+    exact ⟨proveAll_verifies_raw hI cfg hz t n hwf hnz hn h256 legacy _ left (by simp),
+      proveAll_verifies_raw hI cfg hz t n hwf hnz hn h256 legacy _ left (by simp)⟩
+  · exact ⟨proveAll_verifies_raw hI cfg hz t n hwf hnz hn h256 legacy _ left (by simp),
+      proveAll_verifies_raw hI cfg hz t n hwf hnz hn h256 legacy _ right (by simp)⟩
+
+/-- The edge path on the wire (`path` = `Path.Felt()`, `length` = `Path.Len()`) decoded by `EdgeNode.AsProofNode`
+(`SetBytes(uint8(length), …)`) is the path of the node: nothing is lost for lengths below 256 (a trie has 251). -/
+theorem rpc_edge_path_roundtrip (p : Path) (h : p.length < 256) : decodePath (encodePath p) = p :=
+  decode_encode_path p h
+
+/-- `processStorageKeys`: a request is refused iff some entry lacks its contract or its keys; otherwise the
+result lists the distinct contracts in the order of first appearance and gives each exactly the keys requested
+for it anywhere in the list, each once (so the `usk` of `rpc_response_verifies` covers every requested pair). -/
+theorem rpc_storage_keys_merged (sks : List SK) (usk : List (Nat × List Nat))
+    (h : processStorageKeys sks = .ok usk) :
+    usk.map (·.1) = setOf (sks.filterMap (·.contract)) ∧
+    (∀ sk ∈ sks, (∃ c, sk.contract = some c) ∧ sk.keys ≠ []) ∧
+    ∀ c ks, (c, ks) ∈ usk → ks.Nodup ∧ ∀ k, k ∈ ks ↔ ∃ sk ∈ sks, sk.contract = some c ∧ k ∈ sk.keys :=
+  processStorageKeys_spec sks usk h
+
+/-- `utils.Set` (classes, contracts, keys): exactly the elements of the argument, each once. -/
+theorem rpc_dedup_exact (xs : List Nat) : (setOf xs).Nodup ∧ ∀ x, x ∈ setOf xs ↔ x ∈ xs :=
+  setOf_spec xs
+
+/-- `isBlockSupported`: a proof is served exactly for a `block_id` that denotes the head — `latest`, the head's
+number, or a hash that resolves to the head's number; never for an older, a future, the pre-confirmed or the
+L1-accepted block (the proofs are those of the head state and verify against no other block's root). -/
+theorem rpc_served_only_for_head (id : BlockId) (height : Nat) (numberByHash : Nat → Option Nat) :
+    isBlockSupported id height numberByHash = .ok ↔
+      id = .latest ∨ id = .number height ∨ ∃ h, id = .hash h ∧ numberByHash h = some height :=
+  isBlockSupported_ok id height numberByHash
+
+-- non-vacuity: a request over the example trie as contracts trie (contract 6 asked twice, 3 is absent),
+-- storage keys of contract 6 given in two entries with a repeated key: served, two leaf entries, one mapping
+def exResponseChecks : Bool :=
+  match storageProof freeAlg freeAlg false 3
+      ⟨none, some exTree, fun a => if a = 6 then some ⟨.felt 11, .felt 1⟩ else none,
+        fun a => if a = 6 then some exTree else none⟩
+      .ok [] [6, 3, 6] [⟨some 6, [1, 5]⟩, ⟨some 6, [5, 2]⟩] with
+  | .ok r => decide (r.leaves.length = 2) && decide (r.storageProofs.length = 1) &&
+      decide (verifyL freeAlg Cfg.strict r.contractsRoot (pathOfNat 3 6) (clientSet r.contractsProof) = .ok (.felt 8)) &&
+      decide (verifyL freeAlg Cfg.strict r.contractsRoot (pathOfNat 3 3) (clientSet r.contractsProof) = .ok (.felt 0))
+  | _ => false
+
+example : exResponseChecks = true := by decide
 
 end Juno.C10.Props
